@@ -127,11 +127,13 @@ def handle (j : Json) : IO Unit := do
     -- model: the registry resolves either the exact listers or the alias/case listers; accept either
     let agreeWith := fun (ls : List Ep) =>
       let out := Olla.Model.Routing.handle active h typ fb rom healthy ls
-      (if out.forwardTo.isEmpty then o.backend.isNone && o.status == out.status && o.hDecision.isNone && o.hStrategy.isNone
+      -- a rejection may or may not describe itself in X-Olla-Routing-* headers (the property does not say); if it
+      -- does, the decision it names must be the rejection (the reason text is free)
+      (if out.forwardTo.isEmpty then o.backend.isNone && o.status == out.status &&
+         (o.hDecision.isNone || o.hDecision == some actionRejected)
        else (match o.backend with | some e => out.forwardTo.contains e | none => false) && o.status == 200 &&
          o.hStrategy == (out.headers.find? (fun p => p.1 == headerStrategy)).map (·.2) &&
-         o.hDecision == (out.headers.find? (fun p => p.1 == headerDecision)).map (·.2) &&
-         o.hReason == (out.headers.find? (fun p => p.1 == headerReason)).map (·.2))
+         o.hDecision == (out.headers.find? (fun p => p.1 == headerDecision)).map (·.2))
     let agree := jstr (jget impl "err") == "" && jnat (jget impl "backend_requests") ≤ 1 && (agreeWith lo || agreeWith up)
     let out := Olla.Model.Routing.handle active h typ fb rom healthy up
     let branch := s!"http.{routeName}/{factoryName typ}/{fb}/" ++
